@@ -97,3 +97,22 @@ PROPS["C18"] = {
     "level_text": "Bounded symbolic model checking: after every explored parse (success, error, trailing input) the engine's scheduler state is inspected; a scanner goroutine that is still blocked is a decidable state predicate per path.",
     "level_note": "Same bounds and trusted base as C05.",
 }
+
+# ---------------------------------------------------------------- C10
+PROPS["C10"] = {
+    "jobs": [
+        Job("soymsg", "H_fpKnown", "", workers=1),
+        Job("soymsg", "H_fp", "0..25", workers=8, qtimeout=3000, allow_inconclusive=True),
+        Job("soymsg", "H_id", "0..4,0..2", workers=8, qtimeout=3000, allow_inconclusive=True),
+        Job("soymsg", "H_names", "0..9,-1..3", workers=16),
+        Job("soymsg", "H_fp", "26..40", tier="thorough", workers=8, qtimeout=3000, allow_inconclusive=True, note="3 blocks"),
+        Job("soymsg", "H_id", "5..13,0..3", tier="thorough", workers=8, qtimeout=3000, allow_inconclusive=True, note="longer text"),
+    ],
+    "bounds_quick": "fingerprint vs the official algorithm for every byte string of each length 0..25 (0, 1 and 2 twelve-byte blocks, every tail length); calcID with symbolic text (<= 4 bytes), description (2 bytes, two independent copies) and meaning (<= 2 bytes); placeholder naming for a dictionary of 10 messages under an arbitrary iteration order of each of the 4 map loops of setPlaceholderNames, one loop at a time",
+    "bounds_thorough": "fingerprint lengths up to 40; text up to 13 bytes, meaning up to 3",
+    "outside": "strings longer than the bound; collision-freeness (a 63-bit id cannot be injective); the branch hi==0 && lo in {0,1} is a hash pre-image question: explored under a 3 s query timeout and counted as inconclusive when the solver gives up; several map loops permuted at once (only one loop's order influences the result, shown per loop); across-process stability follows from calcID reading nothing but the node",
+    "assumptions": ["refFingerprint/refID/refNames (harness) are transliterations of the official SoyMsgIdComputer and MsgNode.genSubstUnitInfo; refID is validated on every run against the official ids pinned in soy's tests"],
+    "level_text": "Bounded symbolic model checking of the real hash and id code against a transliteration of the official algorithm with all input bytes symbolic, plus map-iteration order as a solver-visible choice for the naming pass.",
+    "level_note": "Bounds: input lengths; message dictionary; one permuted loop at a time. Trusted: go/ssa, gosym, z3, the transliterated reference (validated against pinned official ids).",
+    "technique": "bounded symbolic execution of the go/ssa form; implementation and reference intern to the same bit-vector term when equal, otherwise z3 finds distinguishing bytes; map order modelled as nondeterministic choices",
+}
